@@ -21,12 +21,40 @@ fn usable(cfg: &[(String, String)]) -> bool {
     mw >= 20 && mw >= 5 * ts && ts >= 1
 }
 
+/// `file:line:col` of a panic -> `file:enclosing fn` (robust against unrelated edits that move lines)
+fn site_fn(loc: &str) -> String {
+    let mut it = loc.split(':');
+    let file = it.next().unwrap_or("");
+    let line: usize = it.next().and_then(|s| s.parse().ok()).unwrap_or(0);
+    let rel = file.rsplit_once("/src/").map(|(_, r)| format!("src/{}", r)).unwrap_or_else(|| file.trim_start_matches("./").to_string());
+    let path = repo_dir().join(&rel);
+    let mut name = String::from("?");
+    if let Ok(src) = std::fs::read_to_string(&path) {
+        for (i, l) in src.lines().enumerate() {
+            if i + 1 > line {
+                break;
+            }
+            let t = l.trim_start();
+            let t = t.strip_prefix("pub(crate) ").or_else(|| t.strip_prefix("pub(super) ")).or_else(|| t.strip_prefix("pub ")).unwrap_or(t);
+            let t = t.strip_prefix("const ").unwrap_or(t);
+            let t = t.strip_prefix("unsafe ").unwrap_or(t);
+            if let Some(rest) = t.strip_prefix("fn ") {
+                name = rest.chars().take_while(|c| c.is_alphanumeric() || *c == '_').collect();
+            }
+        }
+    }
+    format!("{}:{}", rel, name)
+}
+
 fn sig_of(status: &Status) -> Option<String> {
     match status {
         Status::Panic(m) => {
-            // "file:line:col: message" -> the panic site; a payload-less unwind (rustc's FatalError) is "?"
-            let site = if m.starts_with('?') || m == "?" { "fatal-error-unwind".to_string() } else { m.split(": ").next().unwrap_or("?").rsplitn(2, ':').last().unwrap_or("?").to_string() };
-            Some(format!("c16:panic:{}", site))
+            // "file:line:col: message"; a payload-less unwind (rustc's FatalError) is "?"
+            if m.starts_with('?') {
+                return Some("c16:panic:fatal-error-unwind".to_string());
+            }
+            let loc = m.split(": ").next().unwrap_or("?");
+            Some(format!("c16:panic:{}", site_fn(loc)))
         }
         Status::Died(m) => Some(format!("c16:died:{}", m.replace(' ', "_"))),
         _ => None,
@@ -162,7 +190,7 @@ pub fn run(tier: &str, seed: u64, out: &Path) -> i32 {
                 other => {
                     o.count("cli:ABNORMAL");
                     let first = c.stderr.lines().find(|l| l.contains("panicked") || l.starts_with("error")).unwrap_or("").to_string();
-                    let site = if first.contains("panicked at ") { first.split("panicked at ").nth(1).unwrap_or("").split(':').next().unwrap_or("").to_string() } else { "fatal-error-unwind".to_string() };
+                    let site = if first.contains("panicked at ") { site_fn(first.split("panicked at ").nth(1).unwrap_or("").trim_end_matches(':')) } else { "fatal-error-unwind".to_string() };
                     o.direct_failures.push(json!({"sig": format!("c16:cli-exit:{:?}:{}", other, site), "what": format!("the rustfmt binary ended with status {:?}: {}", other, first), "case": names[i], "config": cfg_text(&jobs[i].cfg), "src": jobs[i].src}));
                 }
             }
